@@ -143,12 +143,14 @@ class TimeMixIn(object):
             text += '.%d' % (dt.microsecond // 1000)
 
         if dt.utcoffset():
-            seconds = dt.utcoffset().seconds
+            # `timedelta.seconds` alone is never negative
+            seconds = int(dt.utcoffset().total_seconds())
             if seconds < 0:
                 text += '-'
+                seconds = -seconds
             else:
                 text += '+'
-            text += '%.2d%.2d' % (seconds // 3600, seconds % 3600)
+            text += '%.2d%.2d' % (seconds // 3600, seconds % 3600 // 60)
         else:
             text += 'Z'
 
